@@ -332,7 +332,7 @@ def AliasSafe (inputs : List Desc) (i : Nat) (P : Option Nat → St → R Nat) (
 
 /-- evaluation of the round-4 (guarded) programs -/
 macro "flowG_eval" extra:(Lean.Parser.Tactic.simpLemma),* : tactic => `(tactic|
-  simp [kernel1G, unalias, kernelWrite, readWhile, openGP, closeGP, cerodeGP, submGP, tophatCloseGP, tophatOpenGP, inplaceP,
+  simp [kernel1G, unalias, unaliasOpt, kernelWrite, readWhile, openGP, closeGP, cerodeGP, submGP, tophatCloseGP, tophatOpenGP, inplaceP,
     getOut, initSt, St.desc, St.val, R.bind, alloc, write, List.zipIdx, R.ret, R.retVal, R.st, R.exc, intact, expectedDtype,
     getOutput_array_contig, AliasSafe, intactBut, $extra,*])
 
